@@ -16,15 +16,18 @@ theorem workflows_ok (w : WF) (hw : w ∈ workflows) : allCheck w = true :=
   List.all_eq_true.mp workflows_all_ok w hw
 
 theorem allCheck_c02 {w : WF} (h : allCheck w = true) : c02Check w = true := by
-  simp only [allCheck, Bool.and_eq_true] at h; exact h.1.1.1
+  simp only [allCheck, Bool.and_eq_true] at h; exact h.1.1.1.1
 
 theorem allCheck_structural {w : WF} (h : allCheck w = true) : structural w.final = true := by
-  simp only [allCheck, Bool.and_eq_true] at h; exact h.1.1.2
+  simp only [allCheck, Bool.and_eq_true] at h; exact h.1.1.1.2
 
 theorem allCheck_c01 {w : WF} (h : allCheck w = true) : c01Check w = true := by
-  simp only [allCheck, Bool.and_eq_true] at h; exact h.1.2
+  simp only [allCheck, Bool.and_eq_true] at h; exact h.1.1.2
 
 theorem allCheck_c03 {w : WF} (h : allCheck w = true) : c03Check w = true := by
+  simp only [allCheck, Bool.and_eq_true] at h; exact h.1.2
+
+theorem allCheck_noRaise {w : WF} (h : allCheck w = true) : noRaise w = true := by
   simp only [allCheck, Bool.and_eq_true] at h; exact h.2
 
 end BqVerif.Pipeline
